@@ -185,6 +185,7 @@ prop('C09',
                   'existence of discrete logarithms of the summed commitment (premise of thm_part3_completed_share_on_committed_polynomial; not axiomatised)'],
      design_ref='DESIGN.md section 4 C09')
 prop('C10',
+     rt_always=True, rt_budget=8,   # finding probe (known_findings.txt: mixed-refresh-set-cancels) + refresh scenarios on the real suites
      level_text='For every ciphersuite (abstract field/group), every (n,t), identifier set, remaining subset, old key material and RNG stream: Verus proves the real text of '
                 'compute_refreshing_shares / refresh_share / refresh_dkg_part1 / refresh_dkg_part2 / refresh_dkg_shares (and of generate_secret_polynomial / generate_secret_shares / '
                 'SecretShare::verify / KeyPackage::try_from / PublicKeyPackage::from_dkg_commitments / evaluate_vss they call) against contracts that state the WHOLE result and the EXACT error of '
